@@ -265,9 +265,9 @@ Fixpoint proc_repl (ps : list spelling) (prev rest : list tok) (shp : option nat
               end
           | None => proc_repl ps (t :: prev) rest' None args (add_token buf t)
           end
-      | TTok KPunct [35] => proc_repl ps (t :: prev) rest' (Some (length buf)) args (add_token buf t)
       | TSp => proc_repl ps (t :: prev) rest' shp args (add_token buf t)
-      | _ => proc_repl ps (t :: prev) rest' None args (add_token buf t)
+      | _ => proc_repl ps (t :: prev) rest' (if is_punct sharp t then Some (length buf) else None) args
+                       (add_token buf t)
       end
   end.
 
@@ -390,17 +390,16 @@ Definition step (q : quirks) (d : defs) (s : state) : res :=
                       match skip_to_paren r (calls s) (ign s) None with
                       | None => Bad 5
                       | Some (i, cs, ig, ws) =>
-                          match i with
-                          | TTok KPunct [40] :: i' =>
-                              match find_args q i' cs ig (length ps) (variadic ps) 0
-                                              ((length ps =? 1) && variadic ps) [] [] false false with
-                              | FaOk rest cs' ig' args =>
-                                  run_repl rest (out s) (mkmc name ps [] (m_body m) args []) cs' ig'
-                              | FaBad w => Bad w
-                              end
-                          | _ => Next (mkst (match ws with Some w => w :: i | None => i end)
-                                            (t :: out s) cs ig false)
-                          end
+                          if match i with t1 :: _ => is_punct lparen t1 | [] => false end then
+                            match find_args q (tl i) cs ig (length ps) (variadic ps) 0
+                                            ((length ps =? 1) && variadic ps) [] [] false false with
+                            | FaOk rest cs' ig' args =>
+                                run_repl rest (out s) (mkmc name ps [] (m_body m) args []) cs' ig'
+                            | FaBad w => Bad w
+                            end
+                          else                        (* no '(': not a macro call *)
+                            Next (mkst (match ws with Some w => w :: i | None => i end)
+                                       (t :: out s) cs ig false)
                       end
                   end
             end
